@@ -1,10 +1,15 @@
 SPEC = {
     "corr": [{"kind": "ipfix-wf", "quick": 6000, "thorough": 600000},
-             {"kind": "ipfix", "quick": 4000, "thorough": 300000}],
+             {"kind": "ipfix", "quick": 4000, "thorough": 300000},
+             {"kind": "interp", "quick": 4000, "thorough": 300000}],
     "rule": "ipfix-wf: sessions of well-formed generated IPFIX messages (template / options template / data sets, IANA and "
-            "enterprise elements, fixed lengths and the 65535 marker with 1- and 3-octet prefixes, data records of any positive "
+            "enterprise elements, fixed lengths incl. integers in more octets than their type (size+1..8 and 9..12) and the 65535 "
+            "marker on elements of ANY type with 1- and 3-octet prefixes, data records of any positive "
             "length, set padding of 0 .. min(shortest record of the template - 1, 7) octets as RFC 7011 3.3.1 allows) with a "
-            "model-independent expected-decode oracle; ipfix: mixed stream with about 12 % malformed datagrams; "
+            "model-independent expected-decode oracle whose expected values are computed from the data types' definitions (RFC 7011 "
+            "6.1: big-endian / two's-complement number of all the field's octets, math/big), not from Interpret; ipfix: mixed "
+            "stream with about 12 % malformed datagrams; interp: ipfix.Interpret alone on every FieldType x every field length "
+            "0..20 x boundary contents; "
             "non-trivial = the implementation produced a non-error result; distinct = distinct case line",
     "assumptions": ["information model = the table regenerated from ipfix/rfc5102_model.go (lookupElem is opaque in the proofs)",
                     "the template cache is modelled as one map keyed by the 32-bit FNV-1 hash (finding K1: colliding keys share an entry)"],
@@ -12,7 +17,8 @@ SPEC = {
 META = {
     "text": "Lean theorems (Vflow.Props.C03, all fully proved, axioms propext/Classical.choice/Quot.sound only) over every "
             "cache, exporter address and well-formed message: record_roundtrip / fields_roundtrip (every template over the "
-            "information model, fixed and variable-length fields with either length-prefix form, enterprise elements, scope "
+            "information model, fixed and variable-length fields - the 65535 marker on an element of any type - with either "
+            "length-prefix form, enterprise elements, scope "
             "fields first: decodeData returns exactly per field (element id, enterprise number, interpret octets type) and "
             "stops right behind the record), recordLoop_roundtrip, dataSet_roundtrip (all records in order, padding skipped, "
             "cache unchanged, no error), templateSet_roundtrip / optTemplateSet_roundtrip (exactly the announced templates "
@@ -26,7 +32,14 @@ META = {
             "the former hypotheses 'record longer than 4 octets' (finding K2) and '<= 4 padding octets' were forced by the "
             "decoder's constant `> 4`, not by the RFC: under the second, 5..7 octets of padding after records of >= 8 octets "
             "lost the whole message (F16). Both are repaired in the code (fix 3c79378) and gone from the theorems; "
-            "k2_repaired / k3_repaired evaluate the former counterexamples. Further: set length < 65536, non-empty sets, "
+            "k2_repaired / k3_repaired evaluate the former counterexamples. The former hypothesis '65535 only on string / "
+            "octetArray elements' was read off getDataLength, not RFC 7011 section 7: any other variable-length element (RFC 6313 "
+            "structured data 291..293 always is) lost the whole message (F23, fix 606ce73, f23_repaired). What `interpret` means "
+            "for the integer types is stated independently of it (Wire.unsignedValue / signedValue, from RFC 7011 6.1) and "
+            "proved: unsigned_field_value / signed_field_value (a field of k <= n <= 8 octets, k the type's size, is reported "
+            "with the value of ALL n octets; before fix 606ce73 the leading k octets were read: F24, f24_repaired), "
+            "integer_field_kind, field_raw (shorter than the type, or an integer of more than 8 octets: the octets). "
+            "Further: set length < 65536, non-empty sets, "
             "template ids != 0, a template "
             "record has >= 1 field, enterprise elements have id >= 1, the data set's template is what Cache.lookup returns "
             "on the cache as updated by the preceding sets. Nothing is partial. The model is tied to ipfix/decoder.go by "
@@ -35,7 +48,8 @@ META = {
     "ref": "DESIGN.md §6 C03",
     "note": "Trusted: Lean kernel; hand-written model Vflow.Model.Ipfix / Flow (Go code transcribed) and hand-written RFC "
             "encoders Vflow.Spec.Wire; lookupElem/interpret are shared by spec and model (their tie to the Go tables is "
-            "C20); the correspondence harness and its generator bound what the tie sees. Value rendering to JSON is C11.",
+            "C20; for the integer types interpret is proved equal to the RFC value, for the other types - floats, booleans, "
+            "dates, addresses - it is tied to Interpret by correspondence only); the correspondence harness and its generator bound what the tie sees. Value rendering to JSON is C11.",
     "technique": "Lean 4 proof by induction over field lists, record lists, template lists and set lists + differential "
                  "correspondence with ipfix.Decoder.Decode + independent expected-decode oracle",
 }
